@@ -33,7 +33,10 @@ cp "$ROOT/target/release/ppgcheck" "$S/ppgcheck"
 for c in "$@"; do
   for seed in ${SEEDS:-default}; do
     t0=$(date +%s.%N)
-    if [ -n "${CASES:-}" ]; then extra="--cases $CASES"; else extra=""; fi
+    if [ -n "${CASES:-}" ]; then
+        # CASES speaks about the scenario checks; the enumeration checks do a tenth of it, the sized cases keep their own count
+        case "$c" in C19) extra="" ;; C10|C20) extra="--cases $((CASES / 10))" ;; *) extra="--cases $CASES" ;; esac
+    else extra=""; fi
     [ "$seed" != default ] && extra="$extra --seed $seed"
     VERIF_DIR="$S/verif" "$S/ppgcheck" "$c" $extra >"$S/$c.out" 2>&1; rc=$?
     t1=$(date +%s.%N)
